@@ -201,7 +201,7 @@ def run_L(cx, job):
 
     def txt(l):
         return l[0] if l[0] in '@!' else leaf_text(l[1], l[0])
-    ents = [txt(l) for l in labels]
+    ents = [txt(l) for l in labels] + [[], '']     # empty alternatives too
     for m in range(1, inner_max + 1):
         ents.extend([txt(x) for x in p]
                     for p in itertools.product(labels, repeat=m))
